@@ -34,6 +34,7 @@ const (
 	gcsSiteBase  = 16
 	siteStmt     = 20 // inserted before every statement of bloom/filter.go, bloom/merkleblock.go
 	siteStmtGCS  = gcsSiteBase + 20
+	siteStmtRepo = 21 // before every statement of the repository's other packages (root, merkleblock, new sub-packages)
 	stmtEveryKey = "stmt_every"
 )
 
@@ -98,6 +99,7 @@ func (e *c20Engine) Describe() kit.Description {
 			"site_18": "gcs: between two iterations of a query loop",
 			"site_19": "gcs: just took the private copy of the filter bytes",
 			"site_20": "bloom: before any statement (inserted automatically in the scratch copy; every k-th offers a decision)",
+			"site_21": "other packages of the repository (root package, merkleblock, sub-packages): before any statement (scratch copy only)",
 			"site_36": "gcs: before any statement (inserted automatically in the scratch copy; every k-th offers a decision)",
 			"site_40": "harness: before a client operation is invoked",
 			"site_41": "harness: after a client operation returned",
@@ -165,8 +167,22 @@ func (e *c20Engine) watchdog() {
 		buf = buf[:runtime.Stack(buf, true)]
 		class := ""
 		for _, g := range strings.Split(string(buf), "\n\n") {
-			if strings.Contains(g, "sync.(*Mutex).Lock") && strings.Contains(g, "github.com/gcash/bchutil/") && (strings.Contains(g, "[sync.Mutex.Lock") || strings.Contains(g, "[semacquire")) {
+			if !strings.Contains(g, "github.com/gcash/bchutil") {
+				continue
+			}
+			if strings.Contains(g, "sync.(*Mutex).Lock") && (strings.Contains(g, "[sync.Mutex.Lock") || strings.Contains(g, "[semacquire")) {
 				class = "deadlock:blocked-in-real-Lock"
+				break
+			}
+			// a TASK goroutine parked inside the code under test on any other
+			// blocking primitive (channel, Cond, RWMutex, WaitGroup) while
+			// nothing has moved for seconds
+			if strings.Contains(g, "sched.(*Sched).Run.func1") {
+				for _, st := range []string{"[chan receive", "[chan send", "[select", "[sync.Cond.Wait", "[sync.RWMutex", "[sync.WaitGroup.Wait", "[semacquire", "[sync.Mutex.Lock"} {
+					if strings.Contains(g, st) {
+						class = "deadlock:task-blocked-forever-in-code-under-test"
+					}
+				}
 			}
 		}
 		if class == "" {
@@ -181,11 +197,11 @@ func (e *c20Engine) watchdog() {
 			if a := active; a != nil {
 				t.Schedule = a.Chosen()
 			}
-			t.Viol = &kit.Violation{Class: class, Key: class, Detail: "a task blocked forever inside sync.Mutex.Lock called from the code under test"}
+			t.Viol = &kit.Violation{Class: class, Key: class, Detail: "a task blocked forever inside a blocking primitive called from the code under test"}
 			_ = t.WriteFile(cf)
 			os.Exit(4)
 		}
-		fmt.Printf("{\"violation\":{\"class\":%q,\"key\":%q,\"detail\":\"a task blocked forever inside sync.Mutex.Lock called from the code under test (no simulation point precedes this Lock, or the mutex was left locked)\",\"step\":0},\"steps\":0,\"sig\":0}\n", class, class)
+		fmt.Printf("{\"violation\":{\"class\":%q,\"key\":%q,\"detail\":\"a task blocked forever inside a blocking primitive (lock, channel, condition) called from the code under test while nothing else could move\",\"step\":0},\"steps\":0,\"sig\":0}\n", class, class)
 		os.Exit(1)
 	}
 }
@@ -239,7 +255,7 @@ func (e *c20Engine) generate(seed uint64) (*kit.Trace, *kit.Rng) {
 	// statement-level preemption (automatic instrumentation of the scratch
 	// copy): in about half of the runs, every k-th statement offers a decision
 	if cr.Chance(1, 2) {
-		t.Sites = append(t.Sites, siteStmt, siteStmtGCS)
+		t.Sites = append(t.Sites, siteStmt, siteStmtGCS, siteStmtRepo)
 		if kind == kindGCS {
 			t.Config[stmtEveryKey] = int64([]int{8, 16, 32, 64}[cr.Intn(4)])
 		} else {
@@ -388,7 +404,7 @@ func (e *c20Engine) generate(seed uint64) (*kit.Trace, *kit.Rng) {
 		var ops []kit.Op
 		for i, n := 0, wr.Range(2, 8); i < n; i++ {
 			o := e.genOp(wr, kind, 4, 0, nt, nm, ntx, pool, hashes)
-			if wr.Chance(1, 5) {
+			if wr.Chance(2, 5) {
 				o = kit.Op{K: "mtx", H: wr.Intn(ntx)}
 			}
 			o.S = "by"
@@ -888,7 +904,7 @@ func (e *c20Engine) execute(t *kit.Trace, srng *kit.Rng, st *kit.Stats, record b
 		s = sched.New(nt, nil, t.Schedule, maxSteps)
 	}
 	s.GateSite = bloom.SimSiteBeforeLock
-	s.SparseSites[siteStmt], s.SparseSites[siteStmtGCS] = true, true
+	s.SparseSites[siteStmt], s.SparseSites[siteStmtGCS], s.SparseSites[siteStmtRepo] = true, true, true
 	s.SparseEvery = int(t.Cfg(stmtEveryKey, 1))
 	for _, x := range t.Sites {
 		if x > 0 && x < sched.MaxSites {
